@@ -718,14 +718,21 @@ vbi3_raw_decoder_remove_services
 {
 	_vbi3_raw_decoder_job *job;
 	unsigned int job_num;
+	vbi_service_set siblings;
 
 	assert (NULL != rd);
 
 	job = rd->jobs;
 	job_num = 0;
 
+	/* Services which share a job with a removed service
+	   (e.g. the other caption field) and must stay. */
+	siblings = 0;
+
 	while (job_num < rd->n_jobs) {
 		if (job->id & services) {
+			siblings |= job->id & ~services;
+
 			if (rd->pattern)
                                 remove_job_from_pattern (rd, job_num);
 
@@ -741,7 +748,12 @@ vbi3_raw_decoder_remove_services
 		}
 	}
 
-	rd->services &= ~services;
+	rd->services &= ~(services | siblings);
+
+	if (0 != siblings) {
+		/* They have been admitted before, no need to be strict. */
+		vbi3_raw_decoder_add_services (rd, siblings, /* strict */ 0);
+	}
 
 	return rd->services;
 }
